@@ -974,6 +974,9 @@ func c05MountPath(c *core.Ctx) {
 		g := hd.Graph()
 		info := hd.Info()
 		slashG := func(x *core.Unit, br core.Branch) int {
+			if r := hasSuffixSlash(x, br, paramName(hd, 0)); r != 0 {
+				return r
+			}
 			cmp, ok := x.BranchCmp(br)
 			if !ok || cmp.Val == nil {
 				return 0
